@@ -1,0 +1,73 @@
+// Copyright 2024, Chef.  All rights reserved.
+// https://github.com/q191201771/lal
+//
+// Use of this source code is governed by a MIT-style license
+// that can be found in the License file.
+//
+// Author: Chef (191201771@qq.com)
+
+package rtsp
+
+import (
+	"io"
+	"net/http"
+	"strconv"
+
+	"github.com/q191201771/naza/pkg/nazaerrors"
+	"github.com/q191201771/naza/pkg/nazahttp"
+
+	"github.com/q191201771/lal/pkg/base"
+)
+
+// maxMessageBodySize is the largest Content-Length accepted from a peer. The body of a rtsp message is a sdp
+// or a few parameters; the value is far above any of them and keeps a peer from making us allocate what it
+// never sends.
+const maxMessageBodySize = 1 << 20
+
+// readRequestMessage reads one rtsp request. Unlike nazahttp.ReadHttpRequestMessage it refuses a negative or
+// oversized Content-Length instead of passing it to make.
+func readRequestMessage(r nazahttp.HttpReader) (ctx nazahttp.HttpReqMsgCtx, err error) {
+	var firstLine string
+	if firstLine, ctx.Headers, ctx.Body, err = readMessage(r); err != nil {
+		return
+	}
+	ctx.Method, ctx.Uri, ctx.Version, err = nazahttp.ParseHttpRequestLine(firstLine)
+	return
+}
+
+// readResponseMessage reads one rtsp response, see readRequestMessage.
+func readResponseMessage(r nazahttp.HttpReader) (ctx nazahttp.HttpRespMsgCtx, err error) {
+	var firstLine string
+	if firstLine, ctx.Headers, ctx.Body, err = readMessage(r); err != nil {
+		return
+	}
+	ctx.Version, ctx.StatusCode, ctx.Reason, err = nazahttp.ParseHttpStatusLine(firstLine)
+	return
+}
+
+func readMessage(r nazahttp.HttpReader) (firstLine string, headers http.Header, body []byte, err error) {
+	firstLine, headers, err = nazahttp.ReadHttpHeader(r)
+	if err != nil {
+		return
+	}
+	// validate the first line before the body is read, as nazahttp.ReadHttpMessage does
+	if _, _, _, err = nazahttp.ParseHttpRequestLine(firstLine); err != nil {
+		return
+	}
+
+	contentLength := headers.Get(HeaderContentLength)
+	if len(contentLength) == 0 {
+		return
+	}
+	cl, err := strconv.Atoi(contentLength)
+	if err != nil {
+		return
+	}
+	if cl < 0 || cl > maxMessageBodySize {
+		err = nazaerrors.Wrap(base.ErrRtsp, "invalid content length: "+contentLength)
+		return
+	}
+	body = make([]byte, cl)
+	_, err = io.ReadFull(r, body)
+	return
+}
